@@ -857,6 +857,9 @@ fn with_base(a: &FArg, nb: u64, p: Option<usize>) -> Res {
         (10, 36) => wb_mode!(10, 36, a, p),
         (8, 16) => wb_mode!(8, 16, a, p),
         (10, 10) => wb_mode!(10, 10, a, p),
+        (2, 2) => wb_mode!(2, 2, a, p),
+        (16, 16) => wb_mode!(16, 16, a, p),
+        (3, 3) => wb_mode!(3, 3, a, p),
         _ => Err(format!("bad-arg base-pair {} {}", a.base, nb)),
     }
 }
@@ -1137,6 +1140,7 @@ pub fn dispatch_float(op: &str, args: &[&str]) -> Option<Res> {
                 let a = p_farg(arg(args, 0)?)?;
                 fbase_table!(frun, a.base, a.mode, op, args)
             }
+            "f.rtsci" => sci::run(args),
             "f.with_base" => {
                 let nb = p_usize(arg(args, 0)?)? as u64;
                 let a = p_farg(arg(args, 1)?)?;
@@ -1175,3 +1179,7 @@ pub fn dispatch_float(op: &str, args: &[&str]) -> Option<Res> {
         }
     })())
 }
+
+// C08 round 5: scientific text read back (`f.rtsci`)
+#[path = "ops_text_sci.rs"]
+mod sci;
